@@ -60,14 +60,14 @@ VARIABLES blog,      \* records appended to the binlog (buffer and file), in ord
           tx,        \* what the write connection sees (committed + open write transaction)
           dbOffset,  \* e.dbOffset
           up,        \* "down" | "replay" | "up"
-          lock,      \* 0, or the write whose Do holds the connection while it waits (commit-now)
+          lock,      \* 0, or the write whose Do holds the write connection across steps
           waitQ,     \* e.waitQ: [off, w, rd, obs]
           rst,       \* binlogEngineReplicaImpl.state: "none" | "wtc" (waitToCommit)
           queue,     \* applyQueue.q: [body, skip]
           qOff,      \* applyQueue.dbOffset
           rpos,      \* records handed to the engine by the reader so far
           rcommit,   \* reader's commitPos (records)
-          cl,        \* per write: "new" | "waiting" | "done" | "failed" | "lost"
+          cl,        \* per write: "new" | "appended" | "waiting" | "done" | "failed" | "lost"
           acked,     \* ghost: writes acknowledged to their caller in wait mode
           failedW,   \* ghost: writes whose Do returned the callback's error
           seen,      \* ghost: reader -> last View result
@@ -184,65 +184,53 @@ AppendRecs(w, sz, svc) ==
   LET e == Rec(w, sz, LogEnd(blog))
   IN IF svc = 0 THEN <<e>> ELSE <<e, Rec(0, svc, e.end)>>
 
-\* engine.go doWithoutWait, successful callback that returns an event; WaitCommit
-DoWriteBase(w, sz, svc) ==
-  /\ Serving /\ Role = "master" /\ Dur = "wait"
+(* engine.go doWithoutWait, successful callback that returns an event, in its two sections:
+   DoAppend  callback inside the savepoint, binlogUpdateOffset with the predicted offset in the
+             same write transaction, Append / AppendASAP, e.dbOffset = returned offset.  The Do
+             keeps the connection (lock = w);
+   DoQueue   the section under waitQMx: the binlog writer runs concurrently and may have
+             committed the event already (alreadyCommitted) -- then the Do returns at once, in
+             NoWaitCommit without the COMMIT it was about to make; otherwise it enters the wait
+             queue and (WaitCommit) releases the connection and waits outside, or (NoWaitCommit,
+             commit-now) keeps the connection until the channel is closed.                     *)
+DoAppendBase(w, sz, svc, kind) ==
+  /\ Serving /\ Role = "master"
+  /\ Dur = (IF kind = "wait" THEN "wait" ELSE "nowait")
   /\ cl[w] = "new"
   /\ dbOffset = LogEnd(blog)                                   \* else Append refuses the offset
-  /\ LET predicted == dbOffset + sz
-         recs == AppendRecs(w, sz, svc)
-     IN /\ tx' = [app |-> Append(tx.app, w), off |-> predicted]  \* callback + binlogUpdateOffset
-        /\ blog' = blog \o recs                                  \* AppendASAP
-        /\ dbOffset' = recs[Len(recs)].end
-        /\ IF predicted <= cinfo                                 \* alreadyCommitted
-             THEN /\ waitQ' = waitQ /\ cl' = [cl EXCEPT ![w] = "done"]
-             ELSE /\ waitQ' = Append(waitQ, [off |-> predicted, w |-> w, rd |-> FALSE, obs |-> <<>>])
-                  /\ cl' = [cl EXCEPT ![w] = "waiting"]
-  /\ UNCHANGED <<written, synced, cinfo, dbC, up, lock, rst, queue, qOff, rpos, rcommit, failedW,
-                 seen, readRet, nreads, crashes, closes, durable>>
-
-DoWriteCore(w, svc) ==
-  /\ w \notin FailW
-  /\ DoWriteBase(w, Size(w), svc)
-  /\ acked' = IF dbOffset + Size(w) <= cinfo THEN acked \cup {w} ELSE acked
-
-\* NoWaitCommit, timer not due: Append, return at once
-DoWriteLazyBase(w, sz, svc) ==
-  /\ Serving /\ Role = "master" /\ Dur = "nowait"
-  /\ cl[w] = "new"
-  /\ dbOffset = LogEnd(blog)
   /\ LET recs == AppendRecs(w, sz, svc)
      IN /\ tx' = [app |-> Append(tx.app, w), off |-> dbOffset + sz]
         /\ blog' = blog \o recs
         /\ dbOffset' = recs[Len(recs)].end
-  /\ cl' = [cl EXCEPT ![w] = "done"]
-  /\ UNCHANGED <<written, synced, cinfo, dbC, up, lock, waitQ, rst, queue, qOff, rpos, rcommit, acked,
-                 failedW, seen, readRet, nreads, crashes, closes, durable>>
-
-DoWriteLazyCore(w, svc) == w \notin FailW /\ DoWriteLazyBase(w, Size(w), svc)
-
-\* NoWaitCommit, timer due (mustCommitNow): AppendASAP and wait for the binlog commit while
-\* holding the connection
-DoNowBeginBase(w, sz, svc) ==
-  /\ Serving /\ Role = "master" /\ Dur = "nowait"
-  /\ cl[w] = "new"
-  /\ dbOffset = LogEnd(blog)
-  /\ LET predicted == dbOffset + sz
-         recs == AppendRecs(w, sz, svc)
-     IN /\ tx' = [app |-> Append(tx.app, w), off |-> predicted]
-        /\ blog' = blog \o recs
-        /\ dbOffset' = recs[Len(recs)].end
-        /\ waitQ' = Append(waitQ, [off |-> predicted, w |-> w, rd |-> FALSE, obs |-> <<>>])
-  /\ lock' = w
-  /\ cl' = [cl EXCEPT ![w] = "waiting"]
-  /\ UNCHANGED <<written, synced, cinfo, dbC, up, rst, queue, qOff, rpos, rcommit, acked, failedW,
+  /\ IF kind = "lazy"                                          \* NoWaitCommit, timer not due: plain Append, return
+       THEN lock' = 0 /\ cl' = [cl EXCEPT ![w] = "done"]
+       ELSE lock' = w /\ cl' = [cl EXCEPT ![w] = "appended"]
+  /\ UNCHANGED <<written, synced, cinfo, dbC, up, waitQ, rst, queue, qOff, rpos, rcommit, acked, failedW,
                  seen, readRet, nreads, crashes, closes, durable>>
 
-DoNowBeginCore(w, svc) == w \notin FailW /\ DoNowBeginBase(w, Size(w), svc)
+DoQueueEffect(w, waits) ==
+  /\ up = "up" /\ lock = w /\ cl[w] = "appended"
+  /\ IF waits
+       THEN /\ waitQ' = Append(waitQ, [off |-> tx.off, w |-> w, rd |-> FALSE, obs |-> <<>>])
+            /\ cl' = [cl EXCEPT ![w] = "waiting"]
+            /\ lock' = IF Dur = "wait" THEN 0 ELSE w
+       ELSE /\ waitQ' = waitQ
+            /\ cl' = [cl EXCEPT ![w] = "done"]
+            /\ lock' = 0
+  /\ UNCHANGED <<blog, written, synced, cinfo, dbC, tx, dbOffset, up, rst, queue, qOff, rpos, rcommit, failedW,
+                 seen, readRet, nreads, crashes, closes, durable>>
+
+DoQueueCore(w) ==
+  /\ DoQueueEffect(w, ~(tx.off <= cinfo))                       \* alreadyCommitted
+  /\ acked' = IF Dur = "wait" /\ tx.off <= cinfo THEN acked \cup {w} ELSE acked
+
+DoWriteCore(w, svc) == w \notin FailW /\ DoAppendBase(w, Size(w), svc, "wait")
+DoWriteLazyCore(w, svc) == w \notin FailW /\ DoAppendBase(w, Size(w), svc, "lazy")
+DoNowBeginCore(w, svc) == w \notin FailW /\ DoAppendBase(w, Size(w), svc, "now")
 
 \* ... the channel was closed: commitRWTXAndStartNewLocked(c, true, false, false)
 DoNowFinishCore(w) ==
-  /\ up = "up" /\ lock = w
+  /\ up = "up" /\ lock = w /\ cl[w] = "waiting"
   /\ \A i \in 1..Len(waitQ) : waitQ[i].w # w
   /\ dbC' = tx
   /\ lock' = 0
@@ -428,7 +416,7 @@ CrashCore ==
   /\ up' = "down" /\ lock' = 0 /\ waitQ' = <<>>
   /\ tx' = dbC /\ dbOffset' = 0 /\ cinfo' = 0
   /\ rst' = "none" /\ queue' = <<>> /\ qOff' = 0 /\ rpos' = 0 /\ rcommit' = 0
-  /\ cl' = [w \in Writes |-> IF cl[w] = "waiting" THEN "lost" ELSE cl[w]]
+  /\ cl' = [w \in Writes |-> IF cl[w] \in {"waiting", "appended"} THEN "lost" ELSE cl[w]]
   /\ UNCHANGED <<written, synced, dbC, acked, failedW, seen, readRet, nreads, closes>>
 
 \* OpenEngine: binlogLoadOrCreatePosition, binlog.Run(offset, ...)
@@ -471,6 +459,7 @@ Post == [dbo |-> dbOffset', rst |-> rst', qlen |-> Len(queue'), qoff |-> qOff', 
 DoWrite(w, s) == DoWriteCore(w, s) /\ hist' = Record([a |-> "DoWrite", w |-> w, svc |-> s])
 DoWriteLazy(w, s) == DoWriteLazyCore(w, s) /\ hist' = Record([a |-> "DoWriteLazy", w |-> w, svc |-> s])
 DoNowBegin(w, s) == DoNowBeginCore(w, s) /\ hist' = Record([a |-> "DoNowBegin", w |-> w, svc |-> s])
+DoQueue(w) == DoQueueCore(w) /\ hist' = Record([a |-> "DoQueue", w |-> w])
 DoNowFinish(w) == DoNowFinishCore(w) /\ hist' = Record([a |-> "DoNowFinish", w |-> w])
 DoWriteFail(w) == DoWriteFailCore(w) /\ hist' = Record([a |-> "DoWriteFail", w |-> w])
 DoWriteReplica(w) == DoWriteReplicaCore(w) /\ hist' = Record([a |-> "DoWriteReplica", w |-> w, post |-> Post])
@@ -497,7 +486,7 @@ Svc == {0} \cup SvcSizes
 
 Next == /\ (MaxOps > 0 => Len(hist) < MaxOps)
         /\ \/ \E w \in Writes, s \in Svc : DoWrite(w, s) \/ DoWriteLazy(w, s) \/ DoNowBegin(w, s) \/ ExtAppend(w, s)
-           \/ \E w \in Writes : DoNowFinish(w) \/ DoWriteFail(w) \/ DoWriteReplica(w)
+           \/ \E w \in Writes : DoQueue(w) \/ DoNowFinish(w) \/ DoWriteFail(w) \/ DoWriteReplica(w)
            \/ DoRead
            \/ \E r \in Readers : ViewA(r)
            \/ TxCommit \/ BlWrite \/ BlSync \/ BlCommit
@@ -508,7 +497,7 @@ Next == /\ (MaxOps > 0 => Len(hist) < MaxOps)
 
 Spec == Init /\ [][Next]_vars
 \* the binlog writer keeps running (for the liveness property below)
-FairSpec == Spec /\ WF_vars(BlWrite) /\ WF_vars(BlSync) /\ WF_vars(BlCommit)
+FairSpec == Spec /\ WF_vars(BlWrite) /\ WF_vars(BlSync) /\ WF_vars(BlCommit) /\ WF_vars(\E w \in Writes : DoQueue(w))
 
 -------------------------------------------------------------------------------
 (* PROPERTY *)
@@ -567,6 +556,7 @@ Monotone == [][ /\ dbC'.off >= dbC.off
 (* liveness (WaitCommit): a Do that waits for the binlog commit is eventually acknowledged,
    unless the process is killed first *)
 WaitersServed == \A w \in Writes : (cl[w] = "waiting") ~> (cl[w] \in {"done", "lost"})
+\* (DoQueue must also be fair for it: a Do does not stop between its two sections)
 
 Export == PrintT(<<"BEH", ToJson(hist')>>)
 ExportEnd == IF Len(hist') >= MaxOps THEN PrintT(<<"BEH", ToJson(hist')>>) ELSE TRUE
